@@ -200,6 +200,7 @@ def run(tier):
     run.bounds = ['X: literals n<=%d per list (majority n<=%d, normalize <=%d terms); constant/degree unbounded' % ((3, 3, 2) if tier == 'quick' else (4, 5, 3)),
                   'S linear: n<=%d, 4 polarity patterns, constant in [-2,n+2], six operators, CNF and OPB' % (5 if tier == 'quick' else 7),
                   'S mapping: unary n,m<=%d; sparse over %s; binary n<=3, m<=%d' % ((3, 'B quick box', 6) if tier == 'quick' else (4, 'B thorough box', 9))]
+    run.bounds += ['size-threshold points of vlib/bigpoints.py (parameters around 10/11, 16/17, 32/33; satisfiable instances; equivalence only, 15 s solver budget, undecided ones counted as big_inconclusive)', 'one third of the points is built a second time, one third again after three calls with other arguments: all builds must agree']
     run.outside = ['more literals than the bounds', 'zero coefficients in normalize_opb (not excluded by the documentation, not meaningful)',
                    'force_surjective_mapping on binary mappings (undocumented)']
     run.assumptions = ['CrossHair 0.0.110 models Python ints/bools/lists faithfully; "Confirmed over all paths" is its exhaustive verdict',
